@@ -468,6 +468,42 @@ func checkC01(res *Result) {
 					okU = true
 				}
 			}
+			if !okU {
+				// other statement forms: the return of this.unknown sits where no representation test
+				// holds — in a `default:` clause or a final else, not under a test
+				var stack []ast.Node
+				ast.Inspect(serFd.Body, func(n ast.Node) bool {
+					if n == nil {
+						stack = stack[:len(stack)-1]
+						return true
+					}
+					if r, ok := n.(*ast.ReturnStmt); ok && len(r.Results) == 2 && isIdentNamed(r.Results[1], "nil") {
+						if fv := thisField(info, r.Results[0]); fv != nil && fv.Name() == "unknown" {
+							under := false
+							for i := len(stack) - 1; i >= 0; i-- {
+								switch par := stack[i].(type) {
+								case *ast.CaseClause:
+									if par.List != nil {
+										under = true
+									}
+								case *ast.IfStmt:
+									// in the then-branch?
+									if i+1 < len(stack) && stack[i+1] == ast.Node(par.Body) {
+										under = true
+									}
+								case *ast.ForStmt, *ast.RangeStmt:
+									under = true
+								}
+							}
+							if !under {
+								okU = true
+							}
+						}
+					}
+					stack = append(stack, n)
+					return true
+				})
+			}
 			res.check(okU, "C01-R3", pm.G.Dir, S.pos(serFd), "an unknown value is written back verbatim", "serialiser does not end with `return this.unknown, nil`")
 			// every member has a serialise branch: Is<X> tests in the chain
 			tested := map[string]bool{}
